@@ -15,7 +15,8 @@ the watermark system *under the usage contract*" — the contract (Begin calls s
 above lastIndex) is not assumed but derived from the oracle mutex — and then uses
 `C32`'s contract invariant (`WM.N`: no counted, undecremented index at or below `doneUntil`;
 `doneUntil ≤ lastIndex`) and its waiter lemma (`WM.W`: WaitForMark(i) returns only with
-`doneUntil ≥ i`).
+`doneUntil ≥ i`) — through the adapter lemmas of NoKVModel/Snap/WMFacts.lean, the only file of the
+composition that looks inside the watermark model.
 
 What the configuration must provide (`SnapCfg.Good`): `wm.beginOrder = countThenPublish`,
 `oracle.commitLocked` (the mutex spans `nextTxnTs.Add` and `txnMark.Begin`), `txn.doneAfterApply`,
@@ -54,7 +55,6 @@ theorem C05_stable_reads (c : SnapCfg) (hc : c.Good) (s : St) (hr : Reachable (s
     ∀ kv, kv ∈ C.writes → entryOf kv C.commitTs ∈ s.store := by
   have h := Inv.reachable hc s hr
   have hdu := (h.ti rt R hR).began hb
-  have hn := WM.N.reachable hc.1 s.tm h.tmR
   have hp := (h.ti ct C hC).pc
   -- a timestamp that is still pending is above the watermark, hence above `R.readTs`
   have above : Pending s C.commitTs → 1 ≤ s.tm.nCounted C.commitTs → False := fun h1 h2 => by
@@ -87,12 +87,10 @@ theorem C05_stable_reads (c : SnapCfg) (hc : c.Good) (s : St) (hr : Reachable (s
       · -- inside txnMark.Begin(ts): before the publish, lastIndex < ts; after the count, counted
         exfalso
         by_cases hst : wt.stage ≤ 2
-        · have := (hn.ti w wt hw).preLt ⟨by rw [hk]; rfl, hst⟩
-          rw [hk] at this
-          have h2 := hn.le
-          simp only [WM.Kind.idx] at this
+        · have := WM.begin_unpublished c.wm hc.1 s.tm h.tmR w wt _ hw hk hst
+          have h2 := WM.du_le_last c.wm hc.1 s.tm h.tmR
           omega
-        · exact above hpend (WM.begun_counted c.wm hc.1 true s.tm h.tmR w wt _ hw hk (by omega))
+        · exact above hpend (WM.begun_counted c.wm hc.1 s.tm h.tmR w wt _ hw hk (by omega))
       · exact hall
 
 /-- Every commit timestamp ever handed out belongs to a transaction of the system (so
